@@ -1575,7 +1575,7 @@ func TestVS_EventCodec(t *testing.T) {
 					jc := &job.Jobs[ji]
 					finals := map[string]int{}
 					for bi, steps := range jc.Behaviours {
-						if len(steps) == 0 {
+						if len(steps) == 0 || atomic.LoadInt32(&ecAbort) == 1 {
 							continue
 						}
 						var o ecOutcome
